@@ -34,7 +34,7 @@ def accumulator_templates(F):
     for a in F.adts.values():
         if not a["id"].startswith(F.crate + "::") or a["kind"] != "struct":
             continue
-        fs = a["variants"][0]["fields"]
+        fs = [{"name": n_, "ty": t_} for n_, _p, t_ in C.flat_field_types(F, a["id"])]
         vecs = [f["name"] for f in fs if f["ty"].get("k") == "adt" and f["ty"].get("def") == HVEC]
         u16s = [f["name"] for f in fs if f["ty"].get("k") == "int" and str(f["ty"].get("bits")) == "16" and not f["ty"].get("signed")]
         bools = [f["name"] for f in fs if f["ty"].get("k") == "bool"]
